@@ -94,7 +94,7 @@ def main():
         env2 = dict(os.environ, HSV_SCRATCH_DIR="/tmp/hsv-scratch-seed-" + name)
         meta["checks"] = {}
         for pid in [prop] + also:
-            for tier in (["quick", "thorough"] if "--thorough" in args or pid == prop else ["quick"]):
+            for tier in (["quick"] if "--quick-only" in args else ["quick", "thorough"] if "--thorough" in args or pid == prop else ["quick"]):
                 t0 = time.time()
                 rc, o = sh([os.path.join(VERIF, "check"), pid, "--tier", tier, "--repo", wt], cwd=VERIF, env=env2, timeout=7200)
                 sigs = [l.strip()[:200] for l in o.splitlines() if l.strip().startswith("[")]
